@@ -5,7 +5,7 @@ import json
 import core
 import scen_log
 
-PROPS = ['Props/C20.lean']
+PROPS = ['Props/C20.lean', 'Legacy/LogPipe.lean']
 
 
 def keyfn(case, res, m):
@@ -43,6 +43,10 @@ def run(chk):
         chk.account(scen_log, res2, 'E4-processes')
         chk.collect_monitors(res2, {'C20'}, keyfn)
         chk.notes.append(f'correspondence broke on {len(chk.corr_breaks)} cases; escalated search over {len(more)} more cases')
+    # recogniser: does the failing behaviour match the legacy model's proven counterexample?
+    if any(v['rule'] == 'hang' for v in chk.violations) and any(v['rule'] == 'lost' for v in chk.violations):
+        chk.notes.append('behaviour matches Legacy/LogPipe.lean F15_witness: records lost and the child blocked behind a pipe nobody '
+                         'reads (end mark injected before the child had flushed) - defect F15 is present')
     dist = collections.Counter(scen_log.case_class(c) for c, _ in results)
     vols = sorted(scen_log.n_total(c) for c, _ in results)
     chk.cov['distribution'] = dict(case_classes=dict(sorted(dist.items())), records_min=vols[0], records_max=vols[-1],
